@@ -8,5 +8,6 @@ c_KIND == [lst |-> "lst", nat |-> "nat"]
 c_DECI == [lst |-> 0, nat |-> 0]
 c_PRICE == [lst |-> 1, nat |-> 1]
 c_PDEC == [lst |-> 0, nat |-> 0]
-c_WANTED == {"del_native", "und_native", "eb_release_native", "slash_multi_asset"}
+c_WANTED == {"del_native", "und_native", "eb_release_native", "slash_multi_asset", "msgdel_two_entries", "msgdel_second_entry_fails",
+             "msgund_two_operators", "msgund_same_operator_twice", "msgund_second_entry_fails"}
 =============================================================================
